@@ -73,9 +73,9 @@ CLAIMED = {
     technique='Coq proof + correspondence + mutation stream oracle',
     design='6 C06'),
  'C11': dict(
-    text='Theorems over the generic finder model: every finder is the same find / do_find / sorted_search over its own star search, so answers depend on the finder only through its candidates (for ">" only through the candidate set); the generic finder over a list is the list finder; junk that resolves to no Sid changes no path-search result and makes none fail; every path-search result resolves from an existing matching path, has the searched type and matches the search. Tie: real temporary trees (local + server + list + FindInAll), with and without junk, compared with each other (oracle) and with the file-system model (glob, FindInPaths, FindInConstants, FindInAll).',
-    note=TB + 'PARTIAL: "tree search = list search over the same entities" is oracle + correspondence, not a theorem. scandir order, symlinks, permissions, case-insensitive file systems are not modelled.',
-    technique='Coq proof (congruence, junk invariance, soundness of path search) + finder-agreement oracle on real trees + correspondence',
+    text='Theorems over the generic finder model: every finder is the same find / do_find / sorted_search over its own star search, so answers depend on the finder only through its candidates (for ">" only through the candidate set); the generic finder over a list is the list finder; junk that resolves to no Sid changes no path-search result and makes none fail; every path-search result resolves from an existing matching path, has the searched type and matches the search; and the equality itself for star searches: for every configuration passing paths_unambiguousb, every data set of naturally typed concrete Sids materialised as a tree in which nothing else resolves to a Sid, and typed searches without ">", the tree search returns exactly the entities of the searched type that glob-match the search, is included in the list search over the same entities and equals it when the searched types cover the matches, with or without junk of three kinds (resolves to nothing / to an unsearched type / fails the field check), which also never changes whether a search fails. Tie: real temporary trees (local + server + list + FindInAll), with and without junk, compared with each other (oracle) and with the file-system model (glob, FindInPaths, FindInConstants, FindInAll).',
+    note=TB + 'Guards of the equality theorem: no path component starts with a dot (necessary: glob does not match hidden names - proved as an example), wildcard on a mapped key only as a whole "*", searches whose type has a path template; ">" searches reduce to the same candidate sets through the congruence theorem and C09. FindInAll / FindInConstants agreement is oracle + correspondence. scandir order, symlinks, permissions, case-insensitive file systems are not modelled.',
+    technique='Coq proof (path pattern globs the path of every matching entity + round trip -> tree search = list search; junk invariance) + finder-agreement oracle on real trees + correspondence',
     design='6 C11'),
  'C15': dict(
     text='Theorems over the file-system / writer / getter model: create of an existing entity and update of a missing one (or of a Sid without path) raise SpilException (no new state); a read after a write is the overlay of previous data and written values; a write touches only the sidecar of the written entity, so reads of entities with another sidecar are unchanged; paths differing only by the extension share a sidecar. Tie: all histories of <= 2 (thorough 3) operations over a reduced alphabet + random histories, each from an empty real tree, with tree-to-model comparison after every history and a direct oracle (overlay, exists after create of self or descendant).',
